@@ -150,6 +150,11 @@ impl Method for PhoneticMethod {
                 // The cached suggestions may contain the old entries.
                 self.suggestion.cache.clear();
             }
+        } else if self.modified != SystemTime::UNIX_EPOCH {
+            // The file has been removed in the meantime.
+            self.suggestion.user_autocorrect.clear();
+            self.suggestion.cache.clear();
+            self.modified = SystemTime::UNIX_EPOCH;
         }
     }
 
